@@ -2,6 +2,7 @@ package main
 
 import (
 	"fmt"
+	"math"
 	"os"
 	"sort"
 
@@ -166,10 +167,37 @@ func (j *judge) checkWaitcnt(groups []*groupRec) (stalled bool) {
 					vm, lgkm = r.VMCnt, r.LGKCnt
 				}
 				j.rec.Count("waitcnt_instances", 1)
+				// the all-ones field value requests no wait on that counter:
+				// vmcnt 15 (4 bits) on GCN3, 63 (6 bits) with CDNA3 decoding; lgkmcnt 15 on both
+				k := j.sc.Kernel
+				arch := k.archName()
+				vmReq, lgReq := vm, lgkm
+				if vm == k.noWaitVM() {
+					vm = math.MaxInt32
+				}
+				if lgkm == 15 {
+					lgkm = math.MaxInt32
+				}
 				vmAtIssue := outstanding(w, i.Seq, i.Start, "vmem")
 				lgAtIssue := outstanding(w, i.Seq, i.Start, "smem", "lds")
 				if vmAtIssue > 0 || lgAtIssue > 0 {
 					j.rec.Count("waitcnt_nonzero_outstanding_at_issue", 1)
+				}
+				if vmAtIssue > 15 {
+					j.rec.Count("waitcnt_issued_with_more_than_15_vector_loads_in_flight_"+arch, 1)
+					if vmReq > 0 && vmReq < k.noWaitVM() && vmAtIssue > vmReq {
+						j.rec.Count("waitcnt_nonzero_vmcnt_had_to_wait_with_more_than_15_in_flight_"+arch, 1)
+						j.rec.Distinct("vmcnt_waited_with_more_than_15_in_flight_"+arch, fmt.Sprint(vmReq))
+					}
+				}
+				if k.cdna3() && vmReq >= 15 && vmReq <= 62 {
+					j.rec.Count("waitcnt_vmcnt_15_to_62_cdna3", 1)
+					if vmAtIssue > vmReq {
+						j.rec.Count("waitcnt_vmcnt_15_to_62_cdna3_had_to_wait", 1)
+					}
+				}
+				if lgAtIssue > lgkm && lgReq > 0 {
+					j.rec.Count("waitcnt_nonzero_lgkmcnt_had_to_wait", 1)
 				}
 				mustStall := vmAtIssue > vm || lgAtIssue > lgkm
 				if mustStall {
@@ -196,16 +224,16 @@ func (j *judge) checkWaitcnt(groups []*groupRec) (stalled bool) {
 					j.rec.Count("waitcnt_completed_with_allowed_outstanding", 1)
 				}
 				if vmOut > vm {
-					j.viol("C14|"+j.mode+"|waitcnt|completed-with-vmcnt-outstanding",
-						fmt.Sprintf("group %v wave %d: %s issued at cycle %d completed at cycle %d with %d vector memory instructions outstanding (allowed %d)",
-							gr.ID, w.Index, j.text(i.Off), i.Start, te, vmOut, vm),
-						map[string]any{"group": gr.ID, "wave": w.Index, "pc": i.Off, "outstanding": j.listOutstanding(w, i.Seq, te, "vmem")})
+					j.viol(fmt.Sprintf("C14|%s|waitcnt|completed-above-requested-count|%s|vmcnt=%d", j.mode, arch, vmReq),
+						fmt.Sprintf("group %v wave %d: %s issued at cycle %d with %d vector memory instructions in flight completed at cycle %d with %d still outstanding (requested: at most %d; %s: the vmcnt field is %d bits, %d = no wait)",
+							gr.ID, w.Index, j.text(i.Off), i.Start, vmAtIssue, te, vmOut, vmReq, arch, map[bool]int{false: 4, true: 6}[k.cdna3()], k.noWaitVM()),
+						map[string]any{"group": gr.ID, "wave": w.Index, "pc": i.Off, "arch": arch, "in_flight_at_issue": vmAtIssue, "outstanding": j.listOutstanding(w, i.Seq, te, "vmem")})
 				}
 				if lgOut > lgkm {
-					j.viol("C14|"+j.mode+"|waitcnt|completed-with-lgkmcnt-outstanding",
-						fmt.Sprintf("group %v wave %d: %s issued at cycle %d completed at cycle %d with %d scalar-memory/LDS instructions outstanding (allowed %d)",
-							gr.ID, w.Index, j.text(i.Off), i.Start, te, lgOut, lgkm),
-						map[string]any{"group": gr.ID, "wave": w.Index, "pc": i.Off, "outstanding": j.listOutstanding(w, i.Seq, te, "smem", "lds")})
+					j.viol(fmt.Sprintf("C14|%s|waitcnt|completed-above-requested-count|%s|lgkmcnt=%d", j.mode, arch, lgReq),
+						fmt.Sprintf("group %v wave %d: %s issued at cycle %d completed at cycle %d with %d scalar-memory/LDS instructions outstanding (requested: at most %d)",
+							gr.ID, w.Index, j.text(i.Off), i.Start, te, lgOut, lgReq),
+						map[string]any{"group": gr.ID, "wave": w.Index, "pc": i.Off, "arch": arch, "outstanding": j.listOutstanding(w, i.Seq, te, "smem", "lds")})
 				}
 			}
 		}
